@@ -122,6 +122,24 @@ pub fn fds() -> usize {
         .unwrap_or(0)
 }
 
+/// Number of descriptors of this process that are open on a file whose name starts with "blk" (the blk*.dat files,
+/// whatever handle holds them): other descriptors come and go for reasons that have nothing to do with the parser
+pub fn blk_fds() -> usize {
+    std::fs::read_dir("/proc/self/fd")
+        .map(|d| {
+            d.filter_map(|e| e.ok())
+                .filter_map(|e| std::fs::read_link(e.path()).ok())
+                .filter(|t| {
+                    t.file_name()
+                        .and_then(|n| n.to_str())
+                        .map(|n| n.starts_with("blk"))
+                        .unwrap_or(false)
+                })
+                .count()
+        })
+        .unwrap_or(0)
+}
+
 /// Called from inside the parallel closures: optional seeded delay plus an `eval` event
 pub fn eval_hook(kind: &str, ident: u64) {
     if let Ok(seed) = std::env::var("RBP_VERIF_JITTER") {
